@@ -33,6 +33,11 @@ def run(tier, seed):
                     [("set", k[0], L), ("set", k[1], L), ("set", k[2], L), ("del", k[2])]]
     run_hex(rep, "A: H3Sx{L} direct + two long batches (a leaf referenced three times loses two references inside one batch)", universe="H3S",
             values=("L",), prune=False, props=P, extra_batches=long_batches, exits=("commit", "abort"))
+    import itertools
+    k4 = lab.keys("HS4")
+    twin_batches = [[("set", a, L), ("set", b, L), ("del", c)] for a, b, c in itertools.permutations(k4, 3)]
+    run_hex(rep, "A: HS4xSL direct + every batch [set a L, set b L, del c] (a branch collapses onto a leaf whose byte-identical twin, created in the "
+            "same batch, lives elsewhere)", universe="HS4", values=("S", "L"), prune=False, props=P, extra_batches=twin_batches, exits=("commit", "abort"))
     faults = sum(r.stats.get("ev:opwf", 0) + r.stats.get("ev:batch:wfail", 0) for r in (r1, r2, r3))
     # B
     depth = 3
